@@ -12,6 +12,7 @@ import (
 
 	"github.com/comdex-official/comdex/app/wasm/bindings"
 	"github.com/comdex-official/comdex/x/auction"
+	"github.com/comdex-official/comdex/x/auctionsV2"
 	auctionsV2types "github.com/comdex-official/comdex/x/auctionsV2/types"
 	esmtypes "github.com/comdex-official/comdex/x/esm/types"
 	lendtypes "github.com/comdex-official/comdex/x/lend/types"
@@ -77,6 +78,17 @@ func (f *Fix) restingOrder(e *sim.Env, u sdk.AccAddress) uint64 {
 		return false, nil
 	})
 	return id
+}
+
+// premiumOf: the premium under which the holder keeps his limit bid (owner 5, other 7; the risk account has none).
+func (f *Fix) premiumOf(h sdk.AccAddress) int64 {
+	switch {
+	case h.Equals(f.Owner):
+		return 5
+	case h.Equals(f.Other):
+		return 7
+	}
+	return 9
 }
 
 func collDenom(prod string) string {
@@ -194,15 +206,15 @@ var builders = map[string]builder{
 	"liquidity.UnfarmAndWithdraw": func(f *Fix, e *sim.Env, s, h sdk.AccAddress, prod string) sdk.Msg {
 		return liquiditytypes.NewMsgUnfarmAndWithdraw(f.AppCswap, f.LPool, s, sdk.NewCoin(f.PoolCoin, i(1000)))
 	},
-	// ---- auctionsV2 limit bids: keyed by (debt, collateral, premium, signer); the holder's premium is 5
+	// ---- auctionsV2 limit bids: keyed by (debt, collateral, premium, signer); every holder uses his own premium
 	"auctionsV2.MsgDepositLimitBid": func(f *Fix, e *sim.Env, s, h sdk.AccAddress, prod string) sdk.Msg {
-		return &auctionsV2types.MsgDepositLimitBidRequest{Bidder: s.String(), CollateralTokenId: f.CMDX, DebtTokenId: f.CMST, PremiumDiscount: i(5), Amount: coin("ucmst", 10*unit)}
+		return &auctionsV2types.MsgDepositLimitBidRequest{Bidder: s.String(), CollateralTokenId: f.CMDX, DebtTokenId: f.CMST, PremiumDiscount: i(f.premiumOf(h)), Amount: coin("ucmst", 10*unit)}
 	},
 	"auctionsV2.MsgCancelLimitBid": func(f *Fix, e *sim.Env, s, h sdk.AccAddress, prod string) sdk.Msg {
-		return &auctionsV2types.MsgCancelLimitBidRequest{Bidder: s.String(), CollateralTokenId: f.CMDX, DebtTokenId: f.CMST, PremiumDiscount: i(5)}
+		return &auctionsV2types.MsgCancelLimitBidRequest{Bidder: s.String(), CollateralTokenId: f.CMDX, DebtTokenId: f.CMST, PremiumDiscount: i(f.premiumOf(h))}
 	},
 	"auctionsV2.MsgWithdrawLimitBid": func(f *Fix, e *sim.Env, s, h sdk.AccAddress, prod string) sdk.Msg {
-		return &auctionsV2types.MsgWithdrawLimitBidRequest{Bidder: s.String(), CollateralTokenId: f.CMDX, DebtTokenId: f.CMST, PremiumDiscount: i(5), Amount: coin("ucmst", 10*unit)}
+		return &auctionsV2types.MsgWithdrawLimitBidRequest{Bidder: s.String(), CollateralTokenId: f.CMDX, DebtTokenId: f.CMST, PremiumDiscount: i(f.premiumOf(h)), Amount: coin("ucmst", 10*unit)}
 	},
 }
 
@@ -330,7 +342,7 @@ func (f *Fix) VictimView(e *sim.Env, u sdk.AccAddress) string {
 	if qf, found := a.LiquidityKeeper.GetQueuedFarmer(e.Ctx, f.AppCswap, f.LPool, u); found {
 		xs = append(xs, "qfarm:"+qf.String())
 	}
-	for _, p := range []int64{5, 7} {
+	for _, p := range []int64{5, 7, 9} {
 		if lb, found := a.NewaucKeeper.GetUserLimitBidData(e.Ctx, f.CMST, f.CMDX, i(p), u.String()); found {
 			xs = append(xs, "limit:"+lb.String())
 		}
@@ -456,6 +468,85 @@ func (f *Fix) runHook(e *sim.Env, hook string) (res sim.Result) {
 		res = sim.Result{OK: false, Panic: true, Err: ps}
 	}
 	return
+}
+
+// ---------------------------------------------------------------------------------------------------
+// per-block steps on live Dutch auctions
+
+// armAuction creates a live Dutch auction of the hook's generation by liquidating the risk account's position through the
+// real sweep (CMDX price lowered), then moves the block time into the auction's life (update) or past its end (restart).
+func (f *Fix) armAuction(e *sim.Env, hook string) {
+	a := e.App
+	var dt time.Duration
+	sweep := func() {
+		switch hook {
+		case "aucV2.tick", "aucV2.restart":
+			noPanic(func() { liquidationsV2.BeginBlocker(e.Ctx, abci.RequestBeginBlock{}, a.NewliqKeeper) })
+		default:
+			noPanic(func() { liquidation.BeginBlocker(e.Ctx, abci.RequestBeginBlock{}, a.LiquidationKeeper) })
+		}
+	}
+	// the risk account's position becomes unsafe at 1.5; if an earlier history already consumed it, a deeper dip makes the
+	// owner's and the other user's positions unsafe instead
+	for _, p := range []uint64{1500000, 500000, 500000} {
+		SetPrice(e, f.CMDX, p, true)
+		sweep()
+		if f.AuctionCount(e, hook) > 0 {
+			break
+		}
+	}
+	dt = 600 * time.Second
+	switch hook {
+	case "aucV1.dutchRestart", "aucV2.restart":
+		dt = 3700 * time.Second
+	case "aucV1.lendRestart":
+		dt = 21700 * time.Second
+	}
+	e.Height++
+	e.Time = e.Time.Add(dt)
+	e.Ctx = e.Ctx.WithBlockHeight(e.Height).WithBlockTime(e.Time)
+}
+
+func (f *Fix) auctionRecords(e *sim.Env, hook string) []string {
+	a := e.App
+	var xs []string
+	switch hook {
+	case "aucV1.dutchTick", "aucV1.dutchRestart":
+		for _, x := range a.AuctionKeeper.GetDutchAuctions(e.Ctx, f.AppHarbor) {
+			xs = append(xs, x.String())
+		}
+	case "aucV1.lendTick", "aucV1.lendRestart":
+		for _, x := range a.AuctionKeeper.GetDutchLendAuctions(e.Ctx, f.AppCommodo) {
+			xs = append(xs, x.String())
+		}
+	case "aucV2.tick", "aucV2.restart":
+		for _, x := range a.NewaucKeeper.GetAuctions(e.Ctx) {
+			if x.AppId == f.AppHarbor && x.AuctionType {
+				xs = append(xs, x.String())
+			}
+		}
+	}
+	return xs
+}
+
+// AuctionView = digest of the records of the live Dutch auctions the step works on; AuctionCount = how many there are.
+func (f *Fix) AuctionView(e *sim.Env, hook string) string { return hashStrings(f.auctionRecords(e, hook)) }
+func (f *Fix) AuctionCount(e *sim.Env, hook string) int64  { return int64(len(f.auctionRecords(e, hook))) }
+
+func (f *Fix) runAuctionStep(e *sim.Env, hook string) sim.Result {
+	a := e.App
+	var p bool
+	var ps string
+	switch hook {
+	case "aucV2.tick", "aucV2.restart":
+		p, ps = noPanic(func() { auctionsV2.BeginBlocker(e.Ctx, a.NewaucKeeper) })
+	default:
+		p, ps = noPanic(func() { auction.BeginBlocker(e.Ctx, a.AuctionKeeper, a.AssetKeeper, a.CollectorKeeper, a.EsmKeeper) })
+	}
+	if p {
+		return sim.Result{OK: false, Panic: true, Err: ps}
+	}
+	return sim.Result{OK: true}
 }
 
 func sortedStrings(m map[string]bool) []string {
